@@ -684,6 +684,11 @@ func (e Engine) runOnce(t *testing.T, ctx *kit.Ctx, sc *kit.Scenario[Config, Op]
 			}
 			continue
 		}
+		if strings.HasPrefix(msg.tag, "unlocked-mutation:") || strings.HasPrefix(msg.tag, "unlocked-read:") {
+			res.Violation = &kit.Violation{Class: "C16/lock-discipline", Key: c.Fib + "/" + msg.tag, Step: step,
+				Detail: fmt.Sprintf("task %d is inside a table operation at %q without the lock that operation needs (a shared-mode lock where exclusive access is required, or none): concurrent tasks can enter the same section", pick, msg.tag)}
+			break
+		}
 		if strings.HasPrefix(msg.tag, "blocked:") {
 			blocked[pick] = true
 			ctx.Probe("blocked-on-lock")
@@ -696,7 +701,7 @@ func (e Engine) runOnce(t *testing.T, ctx *kit.Ctx, sc *kit.Scenario[Config, Op]
 		// overlap rule: two tasks inside RIB mutators at once (the RIB is not synchronised by a FIB lock)
 		// a task is inside a RIB mutator once it has reached one of the FIB calls the mutator makes
 		// (a task parked before the RIB's own lock, or still in the face table part of a teardown, is not)
-		if inRib[pick] && strings.HasPrefix(msg.tag, "fib.") {
+		if inRib[pick] && (strings.HasPrefix(msg.tag, "fib.") || msg.tag == "rib.mut") {
 			ribYielded[pick] = true
 		}
 		n := 0
